@@ -373,6 +373,9 @@ int main(int argc, char** argv)
       {
          std::string rid = t[1];
          std::unique_ptr<SP> s;
+         DSVectorBase<double> savedVec;
+         double savedObj = 0.0, savedLo = 0.0, savedUp = 0.0;
+         bool haveSaved = false;
          LineBuf lb;
          std::ostream los(&lb);
          volatile bool flag = false;
@@ -417,6 +420,31 @@ int main(int argc, char** argv)
                   for(auto& a : args)
                      badparam = !setParam(*s, a) || badparam;
                }
+               else if(cmd == "dropcol")
+               {
+                  // hot-start scenarios: the last column is taken out (and remembered) before a first, unobserved solve ...
+                  int n = s->numCols();
+
+                  if(n >= 2)
+                  {
+                     s->getColVectorReal(n - 1, savedVec);
+                     savedObj = s->objReal(n - 1);
+                     savedLo = s->lowerReal(n - 1);
+                     savedUp = s->upperReal(n - 1);
+                     haveSaved = true;
+                     s->removeColReal(n - 1);
+                  }
+               }
+               else if(cmd == "readd")
+               {
+                  // ... and put back at the same position before the observed solves: the LP is the case's LP again
+                  if(haveSaved)
+                     s->addColReal(LPColReal(savedObj, savedVec, savedUp, savedLo));
+
+                  haveSaved = false;
+               }
+               else if(cmd == "optq")
+                  s->optimize();
                else if(cmd == "opt" || cmd == "optint")
                {
                   int at = (cmd == "optint" && !args.empty()) ? atoi(args[0].c_str()) : -1;
@@ -455,6 +483,11 @@ int main(int argc, char** argv)
                   step++;
                }
             }
+         }
+         catch(const SPxException& e)
+         {
+            printf("OBS %s %d what=exception status=EXCEPTION msg=%s\n", rid.c_str(), step, vf::hex(e.what()).c_str());
+            fflush(stdout);
          }
          catch(const std::exception& e)
          {
